@@ -848,6 +848,11 @@ class World:
             rec = self.do_restart(i, op)
         elif kind == "set_fractions":
             rec = self.do_set_fractions(i, op)
+        elif kind == "set_param":
+            # harness action: the driver changes one parameter of a params dict between calls
+            self.paramsets[op["params"]][op["key"]] = float(op["value"])
+            rec = {"i": i, "op": "set_param", "params": op["params"], "key": op["key"],
+                   "status": "ok", "exc": None, "fault": None}
         elif kind == "overlap":
             from .overlap import do_overlap
 
